@@ -1,1 +1,2 @@
 pub mod instr_gen;
+pub mod vm_gen;
